@@ -61,7 +61,7 @@ type c14World struct {
 func c14Open() *c14World {
 	dir := server.VNewScratchDir("c14")
 	w := &c14World{dir: dir, jobs: map[string]bool{}}
-	w.jw = jobs.JOpenWorld(dir)
+	w.jw = jobs.JOpenWorldBus(dir, true) // with the real event bus
 	env := w.jw.W.Env
 	env.AdminUserName = "admin"
 	env.AdminPassword = "secret"
@@ -101,8 +101,17 @@ func (w *c14World) jobJSON(id string, paused bool, jobType string) []byte {
 }
 
 func (w *c14World) jobJSONh(id string, paused bool, jobType string, handlers bool) []byte {
+	return w.jobJSONt(id, paused, jobType, handlers, false)
+}
+
+func (w *c14World) jobJSONt(id string, paused bool, jobType string, handlers bool, onchange bool) []byte {
 	h := w.h
 	trig := map[string]interface{}{"triggerType": "cron", "jobType": jobType, "schedule": "0 0 1 1 *"}
+	if onchange {
+		// follows dataset A: nothing in these histories announces a change of A on the bus (writes go to the store
+		// directly), so the job never fires; what is observed is whether it would
+		trig = map[string]interface{}{"triggerType": "onchange", "jobType": jobType, "monitoredDataset": h.DsName("A")}
+	}
 	if handlers {
 		trig["onError"] = []interface{}{
 			map[string]interface{}{"errorHandler": "reRun", "retryDelay": 7, "maxRetries": 2},
@@ -185,7 +194,7 @@ func (w *c14World) apply(op c14Op) (skip bool, err error) {
 		if w.jobs[op.Job] {
 			return true, nil
 		}
-		cfg, err := w.jw.Sched.Parse(w.jobJSONh(op.Job+"-"+h.Tag, op.N == 1, map[bool]string{false: "incremental", true: "fullsync"}[op.N == 2], op.N == 3))
+		cfg, err := w.jw.Sched.Parse(w.jobJSONt(op.Job+"-"+h.Tag, op.N == 1, map[bool]string{false: "incremental", true: "fullsync"}[op.N == 2], op.N == 3, op.N == 4))
 		if err != nil {
 			return false, err
 		}
@@ -348,6 +357,18 @@ func (w *c14World) observe() []string {
 	}
 	sort.Strings(sched)
 	add("scheduled %v", sched)
+	// what a change announcement would reach: the topics a write can be announced on, and per subscribed job the
+	// topics it is woken by
+	topics, subs := w.jw.W.VBusState()
+	add("event-topics %v", topics)
+	var sk []string
+	for k := range subs {
+		sk = append(sk, k)
+	}
+	sort.Strings(sk)
+	for _, k := range sk {
+		add("event-subscription %s woken by %v", k, subs[k])
+	}
 	var hist []string
 	for _, r := range w.jw.Sched.GetJobHistory() {
 		b, _ := json.Marshal(r)
@@ -604,7 +625,7 @@ func c14Key(w *c14World, obs []string) string {
 	var extra []string
 	for _, x := range obs {
 		switch {
-		case strings.HasPrefix(x, "datasets "), strings.HasPrefix(x, "scheduled "), strings.HasPrefix(x, "client "), strings.HasPrefix(x, "acl "), strings.HasPrefix(x, "providers "):
+		case strings.HasPrefix(x, "datasets "), strings.HasPrefix(x, "scheduled "), strings.HasPrefix(x, "event-"), strings.HasPrefix(x, "client "), strings.HasPrefix(x, "acl "), strings.HasPrefix(x, "providers "):
 			extra = append(extra, x)
 		case strings.HasPrefix(x, "job ") && !strings.Contains(x, " state "):
 			extra = append(extra, x)
@@ -654,6 +675,8 @@ func c14Alphabet(wide bool) []c14Op {
 			c14Op{K: "addjob", Job: "j2", N: 1},
 			c14Op{K: "addjob", Job: "j3", N: 2},
 			c14Op{K: "addjob", Job: "j4", N: 3},
+			c14Op{K: "addjob", Job: "j5", N: 4},
+			c14Op{K: "pause", Job: "j5"},
 			c14Op{K: "unpause", Job: "j1"},
 			c14Op{K: "unpause", Job: "j2"},
 			c14Op{K: "run", Job: "j3"},
@@ -703,7 +726,7 @@ func init() {
 		}
 	})
 	engine.RegisterCheck("C14", func(r *engine.Run) {
-		r.Rule = "SEQ: every history up to the stated depth over the alphabet {restart, 3 data writes incl. a two-dataset transaction, a lookup by full URI in an unmentioned namespace, create plain / with public namespaces, rename, delete, add job, pause, run, register client, set ACL, delete ACL, add login provider} (wide alphabet adds proxy dataset, re-create, paused and fullsync jobs, unpause, reset, delete job, un-register, second client/ACL, delete provider) on a hub of its own (store, dataset manager, runner, scheduler, security core, token providers); after every history (a) data read APIs vs the reference model that ignores restarts, (b) full observation through every read API before vs after a stop/start, (c) raw-key invariants after the restart and after a probe write; states deduplicated by canonical raw scan + non-entity observation"
+		r.Rule = "SEQ: every history up to the stated depth over the alphabet {restart, 3 data writes incl. a two-dataset transaction, a lookup by full URI in an unmentioned namespace, create plain / with public namespaces, rename, delete, add job, pause, run, register client, set ACL, delete ACL, add login provider} (wide alphabet adds proxy dataset, re-create, paused and fullsync jobs, a job with an on-change trigger (real event bus: registered topics and per-subscriber topic sets are part of the observation), unpause, reset, delete job, un-register, second client/ACL, delete provider) on a hub of its own (store, dataset manager, runner, scheduler, security core, token providers); after every history (a) data read APIs vs the reference model that ignores restarts, (b) full observation through every read API before vs after a stop/start, (c) raw-key invariants after the restart and after a probe write; states deduplicated by canonical raw scan + non-entity observation"
 		r.Assumptions = []string{"quiescent points only: no full sync in progress, no running job at the moment of the restart", "Restart = Runner.Stop, Store.Close, then NewStore, NewDsManager, NewRunner, NewScheduler, NewServiceCore, NewProviderManager/NewTokenProviders on the same directories", "node key pre-generated (2048 bit)"}
 		if err := c16PrepareKeys(); err != nil {
 			r.Cap("cannot prepare keys: " + err.Error())
